@@ -88,4 +88,24 @@ def rule_next_start(ctx):
               'the server loop takes its wait from refresh_wait()', 'refresh_wait() is not used by the server loop')
 
 
-RULES = [rule_wait, rule_next_start]
+def rule_snapshot_always_replaced(ctx):
+    """mark_update_done schedules from `current.refresh()`: SharedHistory::update must install the new snapshot on every path."""
+    from lib.rules import field_writes
+    b = ctx.body('payload::history::SharedHistory::update')
+    ws = [site for site, how, adt, f, place in field_writes(b) if adt.endswith('PayloadHistory') and f == 'current' and how == 'assign']
+    ctx.floor('K13', 'assignment of PayloadHistory.current in update', len(ws), 1)
+    nodes = {w.bb for w in ws}
+    free = [r for r in b.returns() if b.path_avoiding(r.bb, avoid_nodes=nodes) is not None]
+    ctx.check(bool(ws) and not free, 'K13', 'update:current-replaced-on-every-path',
+              'every path through SharedHistory::update installs the new snapshot (its refresh time may differ although the payload is equal)',
+              'SharedHistory::update can return without replacing `current`: the snapshot carries the expiry of the data set, so the '
+              'next run is then scheduled from the expiry of an OLDER validation (too late when certificates were re-issued with a '
+              'nearer expiry)', loc='%s:%d' % (b.file, b.line))
+    for w in ws:
+        from lib.tables import describe
+        d = describe(b.origin_of_stmt(w))
+        ctx.check('into_snapshot' in d, 'K13', 'update:current=new-snapshot', 'current is assigned the snapshot of this run (%s)' % d[:60],
+                  'current is assigned `%s`, not the snapshot built from this run\'s report' % d[:100], loc=w.loc())
+
+
+RULES = [rule_wait, rule_next_start, rule_snapshot_always_replaced]
